@@ -34,8 +34,17 @@ def main():
     res = Result(pid, a.tier)
     try:
         mod = importlib.import_module("props." + pid.lower())
+        replaying = None
         if a.replay:
-            sys.exit(mod.replay(a.replay))
+            # a replay file names the signature of a violation (or, for a "nofail" file, the theorems / correspondence
+            # that no longer check) and the PRNG seed of the run that found it: the check is run again with that seed
+            # and the replay reproduces when the same signature is reported again.  Nothing is written.
+            import json
+            replaying = json.loads(Path(a.replay).read_text())
+            if replaying.get("property") not in (None, pid):
+                raise Infra("replay file is for property %s" % replaying.get("property"))
+            if "seed" in replaying:
+                common.SEED = int(replaying["seed"])
         build_ok = True
         if not a.no_build:
             with common.build_lock():
@@ -127,6 +136,21 @@ def main():
                           "the implementation raised %s (%s) on an input inside the property's domain, at %s" % (type(e).__name__, e, where),
                           {"exception": type(e).__name__, "message": str(e)[:300], "where": where,
                            "traceback": traceback.format_exception(type(e), e, e.__traceback__)[-6:]})
+        if replaying is not None:
+            sig = replaying.get("signature")
+            if sig is not None:
+                hit = [v for v in res.violations if v[0] == sig]
+                if hit:
+                    print("REPRODUCED property=%s signature=%r: %s" % (pid, sig, hit[0][1][:300]))
+                    sys.exit(1)
+                print("NOT-REPRODUCED property=%s signature=%r (%d other violation(s) in this run)" % (pid, sig, len(res.violations)))
+                sys.exit(0)
+            if res.failed_theorems or res.broken_tie:
+                print("REPRODUCED property=%s: theorems no longer checked %s; correspondence breaks %d" % (
+                    pid, res.failed_theorems[:5], len(res.broken_tie)))
+                sys.exit(1)
+            print("NOT-REPRODUCED property=%s: every theorem and correspondence checks" % pid)
+            sys.exit(0)
         sys.exit(res.finish())
     except Infra as e:
         print("INFRA-ERROR property=%s: %s" % (pid, e))
